@@ -3,7 +3,7 @@ CONSTANTS
   NMax = 50
   NSmall = 20
   MaxMet = 3
-  AtTarget = FALSE
+  Impl = "fixed"
 INVARIANT RampStart
 INVARIANT RampMonotone
 INVARIANT RampReaches
